@@ -51,8 +51,8 @@ prop("C01", ["TaRs.Props.C01", "TaRs.Round.TauSMA", "TaRs.Round.TauSD", "TaRs.Ro
      explanation="L2 theorems (X K, any linearly ordered field): the generated next of SMA/WMA/SD/MAD/Min/Max/BB computes the statistic of exactly the last min(t,n) inputs for every period, stream and prefix (Min/Max: exactly, order only). The tau(t) agreement of the f64 run with that exact value is a theorem under the standard model of floating-point arithmetic for SMA, SD (variance), BollingerBands.average and MAD (Round/*, Tau*: below tau(t) for every t <= 2·10^6 and every n), and for WMA a theorem with a bound that exceeds tau(t) for t >= 16(n+1)^2 (known finding); Bollinger half-widths and the overflow/underflow range are sampled against double-double references.")
 prop("C02", ["TaRs.Props.C02", "TaRs.Round.EMA", "TaRs.Round.TauEMA", "TaRs.Round.EMAPert", "TaRs.Round.MACD", "TaRs.Round.ATR", "TaRs.Round.ATRBar", "TaRs.Round.TauC02"],
      explanation="L0 whole-stream theorems (any Scalar, hence f64 incl. NaN): EMA seeding/recursion, TrueRange branches, ATR/MACD/KC/CE wiring are the documented formulas in the documented operation order. Layer R (Round/EMA, TauEMA): under the standard model of floating-point arithmetic (|fl x - x| <= u|x|, no overflow/underflow) the generated EMA is within 6(n+1)u·M of the exact recursion for EVERY stream length, which is <= 1e-12·M <= tau(t)·M for n <= 1024 at u = 2^-53. Same layer for the scalar path of the composites (Round/MACD, ATR incl. TrueRange and KeltnerChannel, via the EMA perturbation theorem Round/EMAPert): MACD line/signal/histogram within (6Nf+6Ns+3)/(14Ng+..)/(14Ng+12Nf+12Ns+11)·u·M, ATR within (12N+3)·u·M, Keltner bands within (6N+2+(12N+8)|m|)·u·M; TauC02: below 1e-12·M for moderate periods (e.g. ATR n<=749, MACD(12,26,9)), for periods up to 1024 below tau(t)·M only from t >= 52..223 on (stated, not hidden). BAR path of TrueRange and ATR (Round/ATRBar): for every stream of bars with |high|,|low|,|close| <= M (valid or not) the generated TrueRange is within 2u·M of max(high−low, |high−prev close|, |low−prev close|) and the generated ATR within (12N+3)·u·M of the exact EMA of it, for every stream length. KeltnerChannel fed bars (ATRBar.kc_bar_rounding): average within 6N·u·M of the exact EMA of the computed typical prices, both bands within (6N+2+(12N+8)|m|)·u·M of that EMA ± the exact bar ATR times m, every stream length. ChandelierExit and the sub/over-flow range are sampled.")
-prop("C03", ["TaRs.Props.C03", "TaRs.Props.C03a", "TaRs.Lemmas.Exact.FastStochastic", "TaRs.Lemmas.Exact.RateOfChange", "TaRs.Lemmas.Exact.EfficiencyRatio", "TaRs.Lemmas.Exact.CommodityChannelIndex", "TaRs.Lemmas.Exact.MoneyFlowIndex", "TaRs.Round.MFI", "TaRs.Round.TauMFI", "TaRs.Round.CCI", "TaRs.Round.TauCCI", "TaRs.Round.RSI", "TaRs.Round.TauRSI", "TaRs.Round.PPO", "TaRs.Round.TauPPO"],
-     explanation="L0 per-step and whole-stream formulas (RSI, PPO, OBV, SlowStochastic, CCI wiring, FastStochastic wiring) + L2 exact lookback/window theorems (Lemmas/Exact: FastStochastic, ROC, ER, CCI, MFI). Layer R for MoneyFlowIndex (Round/MFI.mfi_reading_rounding): under the standard model of floating-point arithmetic, for every period and every bar stream with non-negative computed raw flows <= M, whenever the window's total flow D is at least 4E (E = 3·t·min(t,n)·u·M, the proved bound on the drift of both running totals) the ratio branch is taken and the returned value is within 100·(2E/D + 12u) of 100·S_P/(S_P+S_N) over exactly the last min(t,n) signed computed flows — the property's tau·c shape with c = M/D. Layer R for CommodityChannelIndex (Round/CCI.cci_rounding + quot_err): the generated CCI returns 0 or the rounded quotient of a numerator within (3k+…)·u·M of tp − mean and a denominator within (5k+…)·u·M·0.015 of 0.015·MAD over exactly the last min(k,n) computed typical prices, so its error is that drift divided by the exact denominator (the condition number). Layer R for RelativeStrengthIndex (Round/RSI.rsi_rounding, from the L0 identity rsi_stream and the EMA theorem): for every period with (n+1)u <= 1/64 and every stream bounded by M, of ANY length, the k-th output is rsiVal(U_k, D_k) with both smoothed averages within E = 6(n+1)·u·(1+u)(2M+0.1) of the exact EMAs of the computed gains / losses, which are non-negative, and whenever their sum is at least 4E the ratio branch is taken and the output is within 100·(2E/(U+D) + 12u) of 100·U/(U+D) (TauRSI: E <= 2e-11 for RSI(14) on prices to 1000). Layer R for the PercentagePriceOscillator line (Round/PPO.ppo_line_rounding, from ppo_stream, the EMA theorem and quot_err): for prices in [m, M], m > 0, 12(ns+1)·u·M <= m, every value of the ppo line, for every stream length, is within 100·((1+5u)·(2·EN/m + 4·M·ES/m²) + 10u·M/m) of the exact 100·(EMA_f − EMA_s)/EMA_s, EN = (6(nf+1)+6(ns+1)+2+…)·u·M, ES = 6(ns+1)·u·M — rounding drift times the condition number M/m (TauPPO: below 5e-11 percentage points for PPO(12,26) on prices within a factor 2); its signal and histogram are not covered. For the other oscillators (ROC, ER, OBV, the stochastics) the tau(t)·c agreement is sampled with double-double references and condition-number gating.")
+prop("C03", ["TaRs.Props.C03", "TaRs.Props.C03a", "TaRs.Lemmas.Exact.FastStochastic", "TaRs.Lemmas.Exact.RateOfChange", "TaRs.Lemmas.Exact.EfficiencyRatio", "TaRs.Lemmas.Exact.CommodityChannelIndex", "TaRs.Lemmas.Exact.MoneyFlowIndex", "TaRs.Round.MFI", "TaRs.Round.TauMFI", "TaRs.Round.CCI", "TaRs.Round.TauCCI", "TaRs.Round.RSI", "TaRs.Round.TauRSI", "TaRs.Round.PPO", "TaRs.Round.TauPPO", "TaRs.Round.OBV"],
+     explanation="L0 per-step and whole-stream formulas (RSI, PPO, OBV, SlowStochastic, CCI wiring, FastStochastic wiring) + L2 exact lookback/window theorems (Lemmas/Exact: FastStochastic, ROC, ER, CCI, MFI). Layer R for MoneyFlowIndex (Round/MFI.mfi_reading_rounding): under the standard model of floating-point arithmetic, for every period and every bar stream with non-negative computed raw flows <= M, whenever the window's total flow D is at least 4E (E = 3·t·min(t,n)·u·M, the proved bound on the drift of both running totals) the ratio branch is taken and the returned value is within 100·(2E/D + 12u) of 100·S_P/(S_P+S_N) over exactly the last min(t,n) signed computed flows — the property's tau·c shape with c = M/D. Layer R for CommodityChannelIndex (Round/CCI.cci_rounding + quot_err): the generated CCI returns 0 or the rounded quotient of a numerator within (3k+…)·u·M of tp − mean and a denominator within (5k+…)·u·M·0.015 of 0.015·MAD over exactly the last min(k,n) computed typical prices, so its error is that drift divided by the exact denominator (the condition number). Layer R for RelativeStrengthIndex (Round/RSI.rsi_rounding, from the L0 identity rsi_stream and the EMA theorem): for every period with (n+1)u <= 1/64 and every stream bounded by M, of ANY length, the k-th output is rsiVal(U_k, D_k) with both smoothed averages within E = 6(n+1)·u·(1+u)(2M+0.1) of the exact EMAs of the computed gains / losses, which are non-negative, and whenever their sum is at least 4E the ratio branch is taken and the output is within 100·(2E/(U+D) + 12u) of 100·U/(U+D) (TauRSI: E <= 2e-11 for RSI(14) on prices to 1000). Layer R for the PercentagePriceOscillator line (Round/PPO.ppo_line_rounding, from ppo_stream, the EMA theorem and quot_err): for prices in [m, M], m > 0, 12(ns+1)·u·M <= m, every value of the ppo line, for every stream length, is within 100·((1+5u)·(2·EN/m + 4·M·ES/m²) + 10u·M/m) of the exact 100·(EMA_f − EMA_s)/EMA_s, EN = (6(nf+1)+6(ns+1)+2+…)·u·M, ES = 6(ns+1)·u·M — rounding drift times the condition number M/m (TauPPO: below 5e-11 percentage points for PPO(12,26) on prices within a factor 2); its signal and histogram are not covered. Layer R for OnBalanceVolume (Round/OBV.obv_rounding, from obv_stream): every output over t bars with |volume| <= W, t·u <= 1/8, is within t²·u·W of the exact running total (a pure accumulator: quadratic in t because the total itself grows like t·W). For the other oscillators (ROC, ER, the stochastics) the tau(t)·c agreement is sampled with double-double references and condition-number gating.")
 prop("C04", ["TaRs.Props.C04"],
      explanation="L0 theorem per indicator: on every well-formed (hence every reachable) state reset yields exactly the state new builds; parameters unchanged; idempotent. State equality needs no arithmetic, so NaN/inf histories are covered.")
 prop("C05", ["TaRs.Props.C05", "TaRs.Props.C19"],
